@@ -40,7 +40,7 @@ def _defs(fn) -> Dict[str, List[ast.Assign]]:
 def run(chk, repo: Repo):
     chk.rule("C17-R1", "exactData = model(exactSolution); data from that exact data / from the data distribution on the same model; likelihood and prior passed on are built from them", floor=6)
     chk.rule("C17-R2", "noise level: std for the draw, std**2 for the covariance; noise-type branches use noise_std consistently", floor=5)
-    chk.rule("C17-R3", "unit-vector assembly puts F(e_i) in column i", floor=1)
+    chk.rule("C17-R3", "unit-vector assembly puts F(e_i) in column i; the assembled matrix reaches the LinearModel unmodified (no entry filtered or overwritten in between)", floor=1)
     chk.rule("C17-R4", "noise-type and boundary-condition chains refuse unknown values", floor=3)
     chk.rule("C17-R5", "get_components returns (self.model, self.data, info filled from self)", floor=1)
     chk.rule("C17-R6", "PSF sample grids are centred on the kernel origin: for both parities of the size N the grid is N consecutive integers with "
